@@ -1844,3 +1844,46 @@ PROPS["C17"]["rule"] += (" Op mapiter <cfg> <history> <k>: the map is built by t
     "(drop / take / reverse / getLast / every s-th element) of the entry list of Model.MapBTree / Model.MapIndex after the history. "
     "Specification (independent of the map models): the same list functions of the list the crate's own iter() collected forward - a "
     "double-ended exact-size iterator over the forward entry list - compared field by field with everything the crate returned.")
+# ---- third-round seed misses (branch wip-g3): C13-6 (stream borrowing its IoRead), C19-6 (capture buffer reused after a failed capture),
+#      C10-6 (UTF-8 check of a partial raw capture before the Eof report)
+PROPS["C13"]["rule"] += (" Op sfault takes its stream in four constructions - own = Deserializer::from_reader(rd).into_iter(), ownnew = "
+    "StreamDeserializer::new(IoRead::new(rd)), new = StreamDeserializer::new(&mut io_read), iter = Deserializer::new(&mut io_read).into_iter() "
+    "(the last two BORROW the input source: read.rs's `impl Read for &mut R`) - and two fault modes (p: the reader fails for ever after k bytes, "
+    "chunks of 3 bytes and Interrupted results; o: it fails once and then delivers the rest and a clean end, so that a stream that reads on "
+    "after its error yields more items), on the 165 documents with a random k, on 13 fixed multi-value streams (bare scalars, self-delineated "
+    "values, undelimited scalars, unfinished values) with EVERY k, and on 40 (thorough 400) concatenations of 1-3 generated values with 3 "
+    "random k; case line: sfault <cfg> <ctor> <p|o> <kind> <k> <intr> <hex> (replayable). Model: Model.StreamFault.historyF (next() with the "
+    "failing read in the place of the end of input; the same history for every construction and both modes); specification: values and "
+    "undelimited-scalar errors, ONE terminal error (Io of the injected kind, or an earlier Syntax error), then None for ever.")
+PROPS["C19"]["rule"] += (" Op rawseq (harness/src/c19.rs, lean/SJ/Drv/C19Seq.lean): ONE Deserializer per source (from_str, from_slice, from_reader "
+    "over a chunked reader) and k successive T::deserialize(&mut de) calls on it, going on after errors; T = Box<RawValue> (shape raw) or "
+    "struct W { code: u32, payload: Box<RawValue> } (shape wrap: a struct with a RawValue field followed by further documents). Inputs: 20 "
+    "fixed histories and 600 + ~300 (thorough 6000 + ~3000) generated sequences of 2-5 items - generated values, multi-byte and invalid-UTF-8 "
+    "strings, and 25 broken items that fail after capture began or at their first byte (nul, tru, fals, -x, -, 1., 1e, 01, \"\\q, \"\\u12, a raw "
+    "control character, [1, [1,] [1 2] {\"a\" 1} {\"a\":} {1} [nul] x ] , :) - with every whitespace separator or none; wrap: each item inside "
+    "{\"code\":n,\"payload\":…} in both field orders, a broken payload half of the time last in an object that is never closed. Model: "
+    "Model.RawSeq (the typed model's deRaw / deRawStruct threaded through the remaining input) for the items up to and including the FIRST "
+    "error; the items after an error are echoed (where the reader stands after a failed call is not modelled). Specification, independent of "
+    "the model, on every captured text of every source: exactly one JSON value (Spec.Rec), valid UTF-8, no surrounding whitespace, occurring in "
+    "the input at or after the end of the previous captured text; shape raw before the first error: it is THE next value of the input "
+    "(Spec.Pos.scanValue on the remaining input) and a well-formed value there is captured; the three sources agree item by item as long as "
+    "none has reported an error.")
+PROPS["C10"]["configs"] = dict(quick=PROPS["C10"]["configs"]["quick"] + ["rv"], thorough=PROPS["C10"]["configs"]["thorough"] + ["rv"])
+PROPS["C10"]["rule"] += (" Content captured raw (configuration rv, which runs only this; op pfxr, harness/src/c10raw.rs, lean/SJ/Drv/C10Raw.lean): every "
+    "prefix of 12 fixed texts with multi-byte characters as Box<RawValue>, and of 250 (thorough 2500) generated documents per target for "
+    "Box<RawValue>, Vec<Box<RawValue>>, BTreeMap<String, Box<RawValue>> and struct { id: Option<u32>, payload: Box<RawValue>, tail: Box<RawValue> } "
+    "(values: half of them strings / keys / nested containers with 2-, 3- and 4-byte characters, so that most cuts of a byte source fall inside a "
+    "character of the partial capture), from str (character boundaries only), slice and reader. Model: Model.Raw.rawTop / "
+    "Model.RawNested.rawSeqTop, rawMapTop / Model.RawStruct.rawStructTop on every prefix; specification: accepted, or an Eof-category error at "
+    "the end of the prefix.")
+PROPS["C13"]["lean_targets"] = PROPS["C13"]["lean_targets"][:-1] + ["SJ.Props.C13Stream"] + PROPS["C13"]["lean_targets"][-1:]
+PROPS["C13"]["level_text"] += (" Streams of Values over a failing reader (Props/C13Stream.lean over Model/StreamFault.lean): c13_stream_io_once - once "
+    "next() has yielded the I/O error every further call, any number of them, yields None; c13_stream_error_once - the same after a parser "
+    "error other than the undelimited-scalar `trailing characters`; both from the failed flag (nextF_io_fails, nextF_err_fails, historyF_failed). "
+    "The model is tied by op sfault (every construction of the stream, persistent and one-shot faults).")
+PROPS["C19"]["lean_targets"] = PROPS["C19"]["lean_targets"][:-1] + ["SJ.Props.C19Seq"] + PROPS["C19"]["lean_targets"][-1:]
+PROPS["C19"]["level_text"] += (" Successive captures on one Deserializer (Props/C19Seq.lean over Model/RawSeq.lean): c19_seq_capture - every text "
+    "captured by any call of a run of Box::<RawValue>::deserialize(&mut de) calls that has not failed yet is exactly one value of the grammar, "
+    "non-empty, UTF-8 on byte sources, and sits in the input immediately before what that call leaves unread, preceded only by whitespace and by "
+    "what the earlier calls consumed (from Proofs.RawSpan.deRaw_sound, by induction over the calls). What a capture AFTER a failed call holds is "
+    "not modelled (echo) and is judged by the executable specification of op rawseq only.")
